@@ -140,6 +140,7 @@ func c05Config(ctx *core.Ctx, goos, goarch string) {
 	if !r.OK() {
 		return
 	}
+	fullReads(ctx, r, "C05.R14")
 	ctx.Rule("C05.R1", "entry inventory: receiving entry points found by type", 12)
 	ctx.Rule("C05.R2", "bounds: every index/slice/encoding-binary access in the receive cone is proved in range", 14)
 	ctx.Rule("C05.R3", "allocation sizes: every non-constant make length in the cone is proved non-negative", 2)
